@@ -929,10 +929,42 @@ class FnTranslator:
             return test.left.id, isinstance(test.ops[0], ast.Is)
         return None
 
+    def isinstance_narrowing(self, test, env):
+        """`isinstance(x, C) [and isinstance(y, D) ...]` on locals of a universe with a `narrow` table ->
+        [(name, constructor pattern, narrowed type)] or None"""
+        tests = test.values if isinstance(test, ast.BoolOp) and isinstance(test.op, ast.And) else [test]
+        out = []
+        for t in tests:
+            if not (isinstance(t, ast.Call) and isinstance(t.func, ast.Name) and t.func.id == 'isinstance'
+                    and len(t.args) == 2 and not t.keywords and isinstance(t.args[0], ast.Name)
+                    and t.args[0].id in env and env[t.args[0].id].ty[0] == 'named'):
+                return None
+            name = t.args[0].id
+            uni = self.universes.get(env[name].ty[1], {})
+            cls = self.dotted(t.args[1])
+            if cls is None or cls not in uni.get('narrow', {}) or any(name == o[0] for o in out):
+                return None
+            ctor, ty = uni['narrow'][cls]
+            out.append((name, ctor, T(ty)))
+        return out or None
+
     def st_If(self, s, env, ctx, cont, rest):
         nar = self.narrowing(s.test, env)
         if nar is not None:
             return self.if_none(s, nar, env, ctx, cont)
+        inar = self.isinstance_narrowing(s.test, env)
+        if inar is not None:
+            # match x, y with | C x, D y => body (x, y narrowed) | _, _ => orelse
+            env_yes = dict(env)
+            for name, ctor, ty in inar:
+                v = env[name]
+                env_yes[name] = Var(v.lean, ty, param=v.param, fresh=v.fresh)
+            a = self.tr_stmts(s.body, env_yes, ctx, cont)
+            b = self.tr_stmts(s.orelse, env, ctx, cont)
+            return 'match %s with\n| %s => %s\n| %s => %s' % (
+                ', '.join(env[n].lean for n, _, _ in inar),
+                ', '.join('%s %s' % (ctor, env[n].lean) for n, ctor, _ in inar), block(a),
+                ', '.join('_' for _ in inar), block(b))
         binds, cond = self.tr_cond(s.test, env)
         if cond in ('(true = true)', '(false = true)') and not binds:
             # statically decided by the typing entry: only the live branch is translated
@@ -1487,6 +1519,9 @@ class FnTranslator:
         if a.ty == INT and b.ty == INT:
             sym = {'Lt': '<', 'LtE': '≤', 'Gt': '>', 'GtE': '≥', 'Eq': '=', 'NotEq': '≠'}[o]
             return '(%s %s %s)' % (a.text, sym, b.text)
+        if a.ty == STR and b.ty == STR and o in ('Lt', 'LtE', 'Gt', 'GtE'):
+            fn = {'Lt': 'lt', 'LtE': 'le', 'Gt': 'gt', 'GtE': 'ge'}[o]
+            return '((Yaql.PyStr.%s %s %s) = true)' % (fn, a.text, b.text)
         if o in ('Eq', 'NotEq') and self.structural_eq(a.ty) and (self.compatible(a.ty, b.ty) or
                                                                  self.compatible(b.ty, a.ty)):
             ty = self.join_types(a.ty, b.ty, n)
